@@ -28,7 +28,7 @@ const (
 	EvUpdIn  = 17 // management op from inside a rule: C = op index
 	EvKey    = 18 // forRange loop key seen by the loop body  C = key
 	EvObj    = 19 // method invoked on an object kept in a local  C = the object's mark
-	EvAlias  = 22 // locals bound from injected slots and updated in place  C = 1: a local has a wrong value, 2: the injected slot changed; C = 4: about to assign the plain name ov
+	EvAlias  = 22 // locals bound from injected slots and updated in place  C = 1: a local has a wrong value, 2: the injected slot changed; C = 4: about to assign the plain name ov; C = 8+16p: the next statement (section p) may fail
 	EvCallB  = 20 // API call invoked          B = method, C = client
 	EvCallR  = 21 // API call returned         B = method, C = flags (1 err, 2 panic)
 	EvMgmtB  = 30 // management op invoked     A = op index
@@ -180,7 +180,7 @@ func (h *H) B(r, p int64) {
 	if rd := h.sc.Rule(int(r)); rd != nil && int(p) < len(rd.Secs) && (rd.Secs[p].Kind == SecReader || rd.Secs[p].Kind == SecLocObjReader) {
 		fire = 1 // a reader rule always faults: it reads a local it never assigned
 	}
-	if rd := h.sc.Rule(int(r)); rd != nil && int(p) < len(rd.Secs) && rd.Secs[p].Kind == SecArgCount {
+	if rd := h.sc.Rule(int(r)); rd != nil && int(p) < len(rd.Secs) && (rd.Secs[p].Kind == SecArgCount || rd.Secs[p].Kind == SecFnArgCount) {
 		fire = 1 // a call with too few arguments always faults
 	}
 	if rd := h.sc.Rule(int(r)); rd != nil && int(p) == len(rd.Secs) && rd.Ret == RetUnexp {
@@ -210,6 +210,27 @@ func (h *H) Fresh(r int64) int64 {
 
 func (h *H) Same(r, x int64) { simrt.Emit(EvSame, int64(h.c.Idx), r, x) }
 
+// SameAny receives whatever a reader section found under the local name it read (it should have found nothing).
+func (h *H) SameAny(r int64, v interface{}) {
+	x := int64(1)
+	if n, ok := v.(int64); ok {
+		x = n
+	}
+	simrt.Emit(EvSame, int64(h.c.Idx), r, x)
+}
+
+// Pt is a struct that rules keep by value in a local.
+type Pt struct{ X, Y int64 }
+
+func (h *H) Pt(r int64) Pt { return Pt{X: r, Y: 1} }
+
+// M announces a statement that may legitimately fail (the library is free to accept or reject it): whether it
+// did is read off the events that follow.
+func (h *H) M(r, p int64) { simrt.Emit(EvAlias, int64(h.c.Idx), r, 8+p*16) }
+
+// Fa is the injected function fa(r, x).
+func (h *H) Fa(r, x int64) int64 { return x }
+
 // KVal is the value conc child `code` of rule r produces.
 func KVal(r, code int64) int64 { return code*100 + r + 7 }
 
@@ -231,7 +252,7 @@ func (h *H) K(r, code int64) int64 {
 	if pl.GateChild == int(kind) {
 		simrt.Gate(gateID(h.c.Idx, r, kind))
 	}
-	if fire == 1 {
+	if fire == 1 && kind != ChAsgBad { // (that child fails in the store that follows, not here)
 		panic(Marker(h.c.Idx, r, code+1000))
 	}
 	simrt.Emit(EvKE, int64(h.c.Idx), r, code)
@@ -328,6 +349,9 @@ func (h *H) Data() map[string]interface{} {
 	if h.sc.NeedKf {
 		d["kf"] = h.K
 	}
+	if h.sc.NeedFa {
+		d["fa"] = h.Fa
+	}
 	if h.sc.NeedFf {
 		d["ff"] = h.F
 		d["fc"] = h.C
@@ -374,6 +398,20 @@ func (h *H) Data() map[string]interface{} {
 				d[fmt.Sprintf("VB%d", id)] = false
 			case SecUnb, SecUnbCont:
 				d[fmt.Sprintf("VT%d", id)] = fk == s.Kind
+			case SecConc:
+				if s.Arg&(1<<ChAsgBad) != 0 {
+					if fk == SecConc && pl.FireChild == ChAsgBad {
+						d[fmt.Sprintf("VK%d", id)] = int64(17)
+					} else {
+						d[fmt.Sprintf("VK%d", id)] = int64(1)
+					}
+				}
+			case SecFnArgKind:
+				if fk == SecFnArgKind {
+					d[fmt.Sprintf("VS%d", id)] = "s"
+				} else {
+					d[fmt.Sprintf("VS%d", id)] = int64(1)
+				}
 			case SecRangeKey:
 				d[fmt.Sprintf("MM%d", id)] = map[int64]int64{int64(id) + 700: 1}
 			case SecLocAlias:
